@@ -272,7 +272,7 @@ CHECKS = {
         "note": "Trusts encoding/gob and reflect.DeepEqual; walk order is whatever the source produces.",
         "assumptions": ["values come from a pool registered once per process with cache.GobRegister"],
         "jobs": [
-            {"run": "^TestC13DumpRestore$", "n": {"quick": 5000, "thorough": 50000}},
+            {"run": "^TestC13DumpRestore$", "n": {"quick": 5000, "thorough": 25000}},
             # a Dump that is the last use of its cache, while the garbage collector runs
             {"run": "^TestC07WrapperCollected$", "name": "C07WrapperCollected-for-C13", "n": {"quick": 60, "thorough": 600}},
             {"fuzz": "^FuzzC13DumpRestore$", "fuzztime": {"thorough": "60s"}, "tiers": ("thorough",), "timeout": {"quick": 300, "thorough": 600}},
